@@ -95,6 +95,12 @@ function obs() {
   // a long string: the lazily scanned Go import (> 16 bytes) of PAD + content against the same content concatenated in script
   if (wellFormed(u)) {
     var pad = (tk.length & 1) ? PADU : PADA;
+    // hashing contexts first, each on a FRESH import (=== and most other operations scan the string, hashing must not depend on that)
+    var mkr = function () { return __goString(pad + String.fromCharCode.apply(null, u)); }, X = pad + A, o1 = {}, o2 = {};
+    if (new Map([[X, 1]]).get(mkr()) !== 1 || new Map([[mkr(), 1]]).get(X) !== 1) errs.push("Map key: unscanned long import vs script-built string of equal content " + JSON.stringify(tk));
+    if (!new Set([mkr()]).has(X) || new Set([X, mkr()]).size !== 1 || new Set([mkr(), mkr()]).size !== 1) errs.push("Set member: unscanned long import " + JSON.stringify(tk));
+    o1[mkr()] = 1; o2[X] = 1;
+    if (o1[X] !== 1 || o2[mkr()] !== 1) errs.push("property key: unscanned long import " + JSON.stringify(tk));
     sameAs(pad + A, __goString(pad + String.fromCharCode.apply(null, u)), "pad+a/golong-unscanned", errs);
     sameAs(__goString(pad + String.fromCharCode.apply(null, u)), pad + A, "golong-unscanned/pad+a", errs);
   }
